@@ -1,6 +1,7 @@
 package main
 
 import (
+	"encoding/json"
 	"fmt"
 	"reflect"
 	"strings"
@@ -246,6 +247,40 @@ type DAny struct {
 	L []any
 }
 
+type DCellV struct {
+	N *int
+	S string
+	M map[string]int
+}
+type DGrid struct{ Cells map[string]DCellV }
+type DC3 struct {
+	F float64
+	I int
+	B bool
+}
+type DB2 struct {
+	P string
+	DC3
+	Q int
+}
+type DA1 struct {
+	DB2
+	X int
+}
+type DPart struct{ N int }
+type DHold struct{ V any }
+
+// DCode marshals itself as a JSON string
+type DCode struct{ s string }
+
+func (c DCode) MarshalJSON() ([]byte, error)  { return json.Marshal(c.s) }
+func (c *DCode) UnmarshalJSON(b []byte) error { return json.Unmarshal(b, &c.s) }
+
+type DCoded struct {
+	C DCode
+	T string
+}
+
 func suiteRecomposeDirected(tier string, seed uint64) *Report {
 	rep := &Report{Property: "C16", Tier: tier, Seed: seed}
 	r := NewRng(seed + 1616)
@@ -263,6 +298,44 @@ func suiteRecomposeDirected(tier string, seed uint64) *Report {
 		vals = append(vals, &DUns{U: pick(), L: []uint64{pick(), pick()}, M: map[string]uint64{"k": pick()}, P: &p, A: [2]uint{uint(pick()), uint(pick())}})
 		vals = append(vals, &DAny{F: whole[r.Intn(len(whole))], M: map[string]any{"k": whole[r.Intn(len(whole))], "s": "x"}, L: []any{whole[r.Intn(len(whole))], true}})
 	}
+	for i := 0; i < 12; i++ {
+		g := &DGrid{Cells: map[string]DCellV{}}
+		for j := 0; j < 12; j++ {
+			c := DCellV{S: r.Pick([]string{"", "s", "t"})}
+			if r.Bool() {
+				n := r.Intn(9)
+				c.N = &n
+			}
+			if r.Chance(40) {
+				c.M = map[string]int{r.Pick([]string{"a", "b", "c"}): r.Intn(5)}
+			}
+			g.Cells[fmt.Sprintf("k%02d", j)] = c
+		}
+		vals = append(vals, g)
+		vals = append(vals, &DA1{DB2: DB2{P: r.Pick([]string{"p", ""}), DC3: DC3{F: float64(r.Intn(9)) + 0.25, I: 1 + r.Intn(9), B: r.Bool()}, Q: 10 + r.Intn(9)}, X: 100 + r.Intn(9)})
+		vals = append(vals, &DCoded{C: DCode{r.Pick([]string{"plain", "a\"b", "back\\slash", "line\nbreak", "tab\there", "\u00e9"})}, T: "t"})
+	}
+	// a type met lazily as a target does not become known by its short name to create keys
+	for k := 0; k < 3; k++ {
+		rep.Evaluations++
+		in := map[string]any{"V": map[string]any{"^": "DPart", "N": int64(k)}}
+		fresh := safe(func() string {
+			rc := alt.MustNewRecomposer("^", nil)
+			out, err := rc.Recompose(copyTyped(in), &DHold{})
+			return fmt.Sprintf("%#v %v", out, err)
+		})
+		used := safe(func() string {
+			rc := alt.MustNewRecomposer("^", nil)
+			_, _ = rc.Recompose(map[string]any{"N": int64(5)}, &DPart{})
+			_, _ = rc.Recompose(map[string]any{"Cells": map[string]any{}}, &DGrid{})
+			out, err := rc.Recompose(copyTyped(in), &DHold{})
+			return fmt.Sprintf("%#v %v", out, err)
+		})
+		if used != fresh {
+			rep.Add(Disagreement{Case: Show(in), Where: "Recompose with a create key for an unregistered type", Kind: "impl-law:history-dependent", Impl: used, Model: fresh,
+				Detail: "the recomposer had recomposed a DPart target before"})
+		}
+	}
 	for _, v := range vals {
 		desc := fmt.Sprintf("%T %s", v, oj.JSON(v, &ojg.Options{Sort: true}))
 		fresh := func() any { return reflect.New(reflect.TypeOf(v).Elem()).Interface() }
@@ -273,7 +346,11 @@ func suiteRecomposeDirected(tier string, seed uint64) *Report {
 				if err := run(p); err != nil {
 					return "error: " + err.Error()
 				}
-				if !reflect.DeepEqual(v, p) {
+				if _, grid := v.(*DGrid); grid { // nil and empty maps are not distinguished
+					if a, b := canonGo(v), canonGo(p); a != b {
+						return "differs: " + b
+					}
+				} else if !reflect.DeepEqual(v, p) {
 					return "differs: " + fmt.Sprintf("%#v", reflect.ValueOf(p).Elem().Interface())
 				}
 				return "ok"
@@ -284,6 +361,17 @@ func suiteRecomposeDirected(tier string, seed uint64) *Report {
 		}
 		for _, o := range []ojg.Options{{KeyExact: true}, {}, {UseTags: true}} {
 			oo := o
+			oo.Sort = true
+			if _, emb := v.(*DA1); emb { // promoted members of a struct embedded twice
+				rep.Evaluations++
+				a, b := parsedShow(safe(func() string { return oj.JSON(v, &oo) }), false), parsedShow(safe(func() string { return oj.JSON(alt.Decompose(v, &oo), &oo) }), false)
+				if a != b {
+					rep.Add(Disagreement{Case: desc, Where: fmt.Sprintf("alt.Decompose vs oj.JSON {exact=%v,tags=%v}", o.KeyExact, o.UseTags), Kind: "impl-law:encoders-agree", Impl: b, Spec: a})
+				}
+			}
+			if _, coded := v.(*DCoded); coded {
+				continue // alt.Decompose does not consult json.Marshaler: only the Marshal / Unmarshal trips below
+			}
 			check(fmt.Sprintf("Decompose{exact=%v,tags=%v}/Recompose", o.KeyExact, o.UseTags), func(p any) error {
 				_, err := alt.Recompose(alt.Decompose(v, &oo), p)
 				return err
